@@ -318,7 +318,7 @@ def run(ctx, report: Report) -> None:
     default_button_table(ctx, r3)
 
     # ---- R7 (the whole pipeline by interpretation, bounded) --------------------------------------------------------------
-    r7 = report.rule('C17-R7', ':dir() below dir=auto with invalid dir values, radio groups in nested forms, :default, :placeholder-shown (whole pipeline; bounded)', floor=12)
+    r7 = report.rule('C17-R7', ':dir() below dir=auto with invalid dir values, radio groups in nested forms, :default, :placeholder-shown (whole pipeline; bounded)', floor=13)
     from .e2ematch import state_pipeline_table
     state_pipeline_table(ctx, r7)
 
